@@ -535,6 +535,14 @@ def has_negative_leaf(c, t, extra):
     return False
 
 
+def has_frac(t):
+    if t[0] in ("n", "c"):
+        return False
+    if t[0] == "q" or (t[0] == "^" and Fr(t[2]).denominator != 1):
+        return True
+    return any(has_frac(x) for x in t[1:] if isinstance(x, tuple))
+
+
 class ComplexScale(Exception):
     """a negative scale (lat) under a non-integer power: the tree has no real value, acceptance is not demanded"""
 
@@ -821,6 +829,8 @@ def do_grammar(c, rec, payload):
             lg = "complex"
         except (KeyError, ValueError, OverflowError, ZeroDivisionError):
             lg = None
+        if lg != "complex" and has_frac(t) and has_negative_leaf(c, t, extra):
+            lg = "complex"     # sympy distributes powers over the (declared positive) symbols: (lat**-4)**(2/3) is evaluated as lat**(-8/3)
         u, out = parse_guarded(c, rec, lambda: U(s), "Unit(str)", "grammar:" + pool_kind, s)
         rec.count("gr")
         if out == "hang":
